@@ -8,6 +8,7 @@ CONSTANTS
   Stops = {FALSE}
   Modes = {"seq"}
   HookModes = {"all"}
+  Logging = TRUE
   Deviations = {}
 CHECK_DEADLOCK FALSE
 INVARIANT Report
